@@ -7,3 +7,8 @@ import RustCcModel.Properties.C03
 #print axioms RustCc.C03.free_only_when_live
 #print axioms RustCc.C03.freed_forever
 #print axioms RustCc.C03.no_pointer_to_freed
+#print axioms RustCc.C03.drop_only_alive
+#print axioms RustCc.C03.dropped_at_most_once
+#print axioms RustCc.C03.no_event_after_drop
+#print axioms RustCc.C03.dropped_stays_dropped
+#print axioms RustCc.C03.half_dead_is_owned
